@@ -144,6 +144,25 @@ def h_concat(a: str, b: str, multiline: bool, na: int, nb: int) -> None:
     check(toks[0][1] == a + b, "value(esc(a)+esc(b)) != a+b", toks)
 
 
+def h_both_modes(s: str, first_multiline: bool, n: int) -> None:
+    """The same string escaped in both modes, in either order, within one process: each call obeys its own mode's clauses
+    (the property is quantified over both modes for every s; a result must not depend on what was escaped before)."""
+    from srctools.tokenizer import escape_text
+    assume(len(s) == n)
+    for multiline in (first_multiline, not first_multiline, first_multiline):
+        esc = escape_text(s, multiline)
+        bs = 0
+        for ch in esc:
+            if ch == '"':
+                check(bs % 2 == 1, "raw double quote in escaped text", esc, multiline)
+            bs = bs + 1 if ch == '\\' else 0
+            check(ch != '\r', "raw CR in escaped text", esc, multiline)
+            if not multiline:
+                check(ch != '\n', "raw LF in single-line escaped text", esc, multiline)
+        toks, _line = _tokens(['"', esc, '"'])
+        check(len(toks) == 1 and toks[0][0] == "STRING" and toks[0][1] == s, "round trip", toks, multiline)
+
+
 def obligations(tier):
     obls = []
     ctxs = list(CONTEXTS)
@@ -169,6 +188,9 @@ def obligations(tier):
     obls.append(Obl("concat_lemma", MOD, "h_concat", slices=[{"na": a, "nb": b} for a, b in cc], budget_s=budget, per_path_s=30,
                     desc="escape_text(a+b)==escape_text(a)+escape_text(b) and decoding the concatenation gives a+b",
                     bound="len(a),len(b) exact per slice"))
+    obls.append(Obl("both_modes", MOD, "h_both_modes", slices=[{"n": n} for n in ((0, 1, 2) if tier == "quick" else (0, 1, 2, 3))],
+                    budget_s=budget, per_path_s=30, desc="one string through both modes in either order in one process; every call obeys its mode's clauses",
+                    bound="exact length per slice"))
     if tier == "thorough":
         sl4 = [{"n": 4, "ctx": "bare", "cut": 0, "cls": k} for k in FIRST_CLASSES]
         obls.append(Obl("roundtrip.len4", MOD, "h_roundtrip", slices=sl4, budget_s=3000, per_path_s=60,
